@@ -270,11 +270,11 @@ func checkC07(c *Ctx) {
 			if !ok || strip(cl.Call.Value) != cont {
 				continue
 			}
-			arg := strip(cl.Call.Args[0])
+			arg := resultOf(cl.Call.Args[0]) // also the list a collecting helper returns on success
 			facts := FactsAt(cl)
 			isLenArg := func(v ssa.Value) bool {
 				x, isLen := lenOperand(strip(v))
-				return isLen && strip(x) == arg
+				return isLen && (strip(x) == arg || resultOf(strip(x)) == arg)
 			}
 			okGE := hasFact(facts, func(f Fact) bool {
 				return (f.Op == token.GEQ && isLenArg(f.X) && strip(f.Y) == expected) || (f.Op == token.LEQ && isLenArg(f.Y) && strip(f.X) == expected) ||
@@ -391,7 +391,7 @@ func checkC07(c *Ctx) {
 				fmt.Sprintf("the continuation can run without expected−1 confirmations of the identical list (loop-exit=%v init=%v decrement-guard=%v)", okAck, okInit, okDec))
 			// O2: sorted after last assignment
 			okSort := false
-			for _, in2 := range instrsOf(syn) {
+			for _, in2 := range instrsDeep(syn) {
 				c2, ok := in2.(*ssa.Call)
 				if !ok {
 					continue
@@ -400,7 +400,8 @@ func checkC07(c *Ctx) {
 				if cal == nil {
 					continue
 				}
-				if (cal.Name() == "sortIntSlice" || isCallTo(&c2.Call, "sort", "Sort")) && len(c2.Call.Args) == 1 && strip(c2.Call.Args[0]) == arg && instrDominates(c2, cl) {
+				// (the sort may sit in the collecting helper, before its successful return)
+				if (cal.Name() == "sortIntSlice" || isSortHelper(cal) || isCallTo(&c2.Call, "sort", "Sort")) && len(c2.Call.Args) == 1 && (strip(c2.Call.Args[0]) == arg || resultOf(c2.Call.Args[0]) == arg) && instrDominatesDeep(c2, cl) {
 					okSort = true
 				}
 			}
@@ -463,6 +464,43 @@ func checkC07(c *Ctx) {
 				own = true
 			}
 		}
+		// a recording step shared by the callback and the function itself (`collector.add(view)`):
+		// reached by unconditional static calls
+		var reaches func(from *ssa.Function, d int) bool
+		reaches = func(from *ssa.Function, d int) bool {
+			if d > 3 || from == nil {
+				return false
+			}
+			for _, in := range instrsOf(from) {
+				switch x := in.(type) {
+				case *ssa.MapUpdate:
+					if viewsT != nil && len(GuardsLocal(x)) == 0 {
+						for _, mu := range mapUpdatesOfType([]*ssa.Function{from}, viewsT) {
+							if mu == x {
+								return true
+							}
+						}
+					}
+				case *ssa.Call:
+					if g := x.Call.StaticCallee(); g != nil && g.Blocks != nil && pkgPathOf(g) == PkgDisc && g != from && len(GuardsLocal(x)) == 0 {
+						if reaches(g, d+1) {
+							return true
+						}
+					}
+				}
+			}
+			return false
+		}
+		if !inRange {
+			for g := range isCallback {
+				if reaches(g, 0) {
+					inRange = true
+				}
+			}
+		}
+		if !own {
+			own = reaches(iv, 0)
+		}
 		c.Check(inRange && own, G2, FuncName(iv), "every announced view and the own view recorded", m.Pos(iv.Pos()), "unconditional inserts in the Range callback and for the own view", "some view does not take part in the comparison")
 	}
 
@@ -516,10 +554,7 @@ func checkC07(c *Ctx) {
 					}
 				}
 			}
-			viaPRF := sliceHas(keyS, func(v ssa.Value) bool {
-				c2, ok := v.(*ssa.Call)
-				return ok && staticCallee(&c2.Call) != nil && staticCallee(&c2.Call).Name() == "makePRF"
-			})
+			viaPRF := sliceHas(keyS, func(v ssa.Value) bool { return isPRFValue(m, v) })
 			valID := structFieldValue(cl.Call.Args[2], fID, 0)
 			okSame := len(ids) == 1 && valID != nil && strip(valID) == ids[0]
 			// only skip: id == m.ID
@@ -550,12 +585,13 @@ func checkC07(c *Ctx) {
 	if my != nil {
 		ok := false
 		for _, in := range instrsOf(my) {
-			if cl, isC := in.(*ssa.Call); isC && staticCallee(&cl.Call) == nil && !cl.Call.IsInvoke() && len(cl.Call.Args) == 1 && isLoadOfField(cl.Call.Args[0], fSelf) {
+			// PRF(topic)(m.ID) as a closure call, or as a method of a PRF object: prf.tagOf(m.ID)
+			if cl, isC := in.(*ssa.Call); isC && !cl.Call.IsInvoke() && len(cl.Call.Args) >= 1 && isLoadOfField(cl.Call.Args[len(cl.Call.Args)-1], fSelf) {
 				s := sl.Slice(cl.Call.Value)
-				if sliceHas(s, func(v ssa.Value) bool {
-					c2, ok := v.(*ssa.Call)
-					return ok && staticCallee(&c2.Call) != nil && staticCallee(&c2.Call).Name() == "makePRF"
-				}) {
+				if staticCallee(&cl.Call) != nil {
+					s = sl.Slice(cl)
+				}
+				if sliceHas(s, func(v ssa.Value) bool { return isPRFValue(m, v) }) {
 					ok = true
 				}
 			}
@@ -574,3 +610,61 @@ func checkC07Wiring(c *Ctx) {
 }
 
 func isSelect(v ssa.Value) bool { _, ok := v.(*ssa.Select); return ok }
+
+// discPRFEvals: the functions of package disc that evaluate the tag PRF, found by what they do — they take
+// a 16-bit identifier, write bytes made from it into a hash (an interface `Write` with a byte-slice
+// literal) and return that hash's `Sum`: the literal inside makePRF, or a method of a PRF object.
+var discPRFCache = map[*Module]map[*ssa.Function]bool{}
+
+func discPRFEvals(m *Module) map[*ssa.Function]bool {
+	if r, ok := discPRFCache[m]; ok {
+		return r
+	}
+	out := map[*ssa.Function]bool{}
+	for _, fn := range m.PkgFuncs(PkgDisc) {
+		has16 := false
+		for _, p := range fn.Params {
+			if intWidth(p.Type()) == 16 {
+				has16 = true
+			}
+		}
+		if !has16 {
+			continue
+		}
+		writes, sums := false, false
+		for _, in := range instrsOf(fn) {
+			cl, ok := in.(*ssa.Call)
+			if !ok || !cl.Call.IsInvoke() {
+				continue
+			}
+			switch cl.Call.Method.Name() {
+			case "Write":
+				if sl, ok := strip(cl.Call.Args[0]).(*ssa.Slice); ok {
+					if _, isArr := sl.X.(*ssa.Alloc); isArr {
+						writes = true
+					}
+				}
+			case "Sum":
+				sums = true
+			}
+		}
+		if writes && sums {
+			out[fn] = true
+		}
+	}
+	discPRFCache[m] = out
+	return out
+}
+
+// isPRFValue: v is produced by the tag PRF: a call of makePRF (the reference form), a call of a PRF
+// evaluation function, or the Sum computed inside one.
+func isPRFValue(m *Module, v ssa.Value) bool {
+	cl, ok := v.(*ssa.Call)
+	if !ok {
+		return false
+	}
+	if g := staticCallee(&cl.Call); g != nil && (g.Name() == "makePRF" || discPRFEvals(m)[g]) {
+		return true
+	}
+	return cl.Call.IsInvoke() && cl.Call.Method.Name() == "Sum" && discPRFEvals(m)[cl.Parent()]
+}
